@@ -460,6 +460,19 @@ func (d *Driver) judgeC13() {
 			}
 		}
 	}
+	// "A leader whose record was tampered with is demoted": its refresh must never succeed against
+	// a record that somebody else wrote in the meantime (the revision it presents is its own
+	// record's, so the store refuses it; a refresh that goes through has adopted the other party's
+	// revision and silently undoes the tampering instead of stepping down)
+	for _, op := range d.h.Ops {
+		if op.Inst < 0 || !op.Applied || !op.OK || op.Kind != "update" || op.PrevLive == nil || !strings.Contains(op.Caller, "heartbeatLoop") {
+			continue
+		}
+		d.judgedInc("C13")
+		if prev := op.PrevLive; !(prev.Writer == op.Inst && prev.Gen == op.Gen) {
+			d.h.violate("C13", "refresh-succeeded-over-foreign-record/"+callerSig(op.Caller), fmt.Sprintf("i%d's refresh replaced the live record seq=%d %s written by i%d", op.Inst, prev.Seq, trunc(string(prev.Val), 80), prev.Writer), op.TApply, op.SApply)
+		}
+	}
 	// never promote over a live record somebody else wrote
 	for _, c := range d.h.Claims {
 		if !c.Edge || !c.Val {
@@ -1180,4 +1193,11 @@ func minDur(a, b time.Duration) time.Duration {
 		return a
 	}
 	return b
+}
+
+func trunc(x string, n int) string {
+	if len(x) > n {
+		return x[:n] + "..."
+	}
+	return x
 }
